@@ -222,6 +222,7 @@ func stressRound(o *Out, rng *rand.Rand, clients, perClient int) {
 		resp  [][]byte
 		quiet bool
 	}
+	srcOf := func(c int) net.IP { return net.IP{127, 0, byte(1 + c/200), byte(1 + c%200)} }
 	all := make([][]sent, clients)
 	lost := make([]int, clients)
 	var wg sync.WaitGroup
@@ -235,7 +236,11 @@ func stressRound(o *Out, rng *rand.Rand, clients, perClient int) {
 		go func() {
 			defer wg.Done()
 			lr := rand.New(rand.NewSource(seeds[c]))
-			conn, err := net.DialUDP("udp4", &net.UDPAddr{IP: src}, addr)
+			// every client has a source address of its own (any 127/8 address is local): a connection ID is bound to the
+			// address it was issued to, so an answer computed for ANOTHER in-flight request shows
+			csrc := srcOf(c)
+			cid := udp.NewConnectionID(csrc, time.Unix(0, now), key)
+			conn, err := net.DialUDP("udp4", &net.UDPAddr{IP: csrc}, addr)
 			if err != nil {
 				panic(err)
 			}
@@ -314,20 +319,21 @@ func stressRound(o *Out, rng *rand.Rand, clients, perClient int) {
 	binary.BigEndian.PutUint32(ts, uint32(time.Unix(0, now).Unix()))
 	nreq := 0
 	for c := range all {
+		csrc := []byte(srcOf(c))
 		for _, s := range all[c] {
 			var macs []string
 			add := func(m []byte) {
 				macs = append(macs, fmt.Sprintf("(%s, %s, %s)", cB([]byte(key)), cB(m), cB(e2eMac([]byte(key), m))))
 			}
-			add(append(append([]byte{}, ts...), src...))
+			add(append(append([]byte{}, ts...), csrc...))
 			if len(s.pkt) >= 16 {
-				add(append(append([]byte{}, s.pkt[0:4]...), src...))
+				add(append(append([]byte{}, s.pkt[0:4]...), csrc...))
 			}
 			var ds []string
 			for _, d := range s.resp {
 				ds = append(ds, cB(d))
 			}
-			terms = append(terms, fmt.Sprintf("EUdp %s %s %s false %s LSkip", cB(src), cB(s.pkt), cList(macs), cList(ds)))
+			terms = append(terms, fmt.Sprintf("EUdp %s %s %s false %s LSkip", cB(csrc), cB(s.pkt), cList(macs), cList(ds)))
 			nreq++
 		}
 	}
